@@ -12,6 +12,7 @@ import (
 	"google.golang.org/protobuf/reflect/protoregistry"
 	"google.golang.org/protobuf/types/descriptorpb"
 	"google.golang.org/protobuf/types/dynamicpb"
+	"google.golang.org/protobuf/zverif/corpus"
 	"google.golang.org/protobuf/zverif/pbt"
 )
 
@@ -34,6 +35,19 @@ func TestWitnesses(t *testing.T) {
 	}
 	errField, errExt := try(1), try(100)
 	pbt.Witness(t, kfExtUTF8, errField != nil && errExt == nil, fmt.Sprintf("edition 2023 (utf8_validation = VERIFY): Unmarshal of the string 0xff fails for field s (%v) and succeeds for extension e", errField))
+
+	// map<int32, int32> map_int32_int32 = 56, entry = { key: 1 (varint), then field 1 again as fixed32 }
+	panicked := func() (p string) {
+		defer func() {
+			if r := recover(); r != nil {
+				p = fmt.Sprint(r)
+			}
+		}()
+		md := corpus.ByName("goproto.proto.test.TestAllTypesProto3").Descriptor()
+		proto.Unmarshal([]byte{0xc2, 0x03, 0x07, 0x08, 0x01, 0x0d, 0, 0, 0, 0}, dynamicpb.NewMessage(md))
+		return ""
+	}()
+	pbt.Witness(t, kfMapKeyPanic, panicked != "", "proto.Unmarshal(c20307 0801 0d00000000) into dynamicpb TestAllTypesProto3 (map_int32_int32 entry with a second key record of wire type fixed32) panics: "+panicked)
 
 	a, b, err := linkedSides("proto3")
 	if err != nil {
